@@ -785,6 +785,93 @@ def dpsk_detection_evaluated(dd: FuncInfo):
     return OK, "unlisted spelling; the decided index is the phase step (b - a) mod M for every ordered pair of points, M = 4 and 8"
 
 
+def pi4_forward_evaluated(repo: Repo, cname: str):
+    """The whole forward of the pi/4-QPSK modulator / demodulator (class helpers followed, the state attribute carried on
+    the object) evaluated with own arithmetic: both initial states, training and evaluation mode, sequences of 3, 4, 5
+    symbols as one row and as a batch of two rows, both labelings; the demodulator in its hard-bit, hard-index and soft
+    modes on noise-free symbols.  Symbol t must use the rotated table iff state XOR (t odd); the state left behind is
+    state XOR (n odd) in training mode and unchanged in evaluation mode.  Returns (status, detail) or (None, reason)."""
+    from .c14 import fold_buffers
+
+    ci = repo.cls(f"{MD}/pi4qpsk.py", cname)
+    mc = repo.cls(f"{MD}/pi4qpsk.py", "Pi4QPSKModulator")
+    fwd = repo.method(ci, "forward")
+    funcs = {nm: f_.node for nm, f_ in ci.module.functions.items()}
+    funcs.update({f"self.{nm}": f_.node for nm, f_ in ci.methods.items() if nm not in ("forward", "__init__")})
+    is_mod = cname.endswith("Modulator")
+    runs = 0
+    for gray in (True, False):
+        try:
+            bufs = fold_buffers(mc, "_create_constellations", {"self.gray_coded": gray}, {"self.gray_coded": gray})
+        except Exception as exc:  # noqa: BLE001
+            return None, f"tables not evaluable ({exc})"
+        q, qr, bp = bufs.get("qpsk"), bufs.get("qpsk_rotated"), bufs.get("bit_patterns")
+        if not (isinstance(q, list) and isinstance(qr, list) and len(q) == len(qr) == 4 and isinstance(bp, list) and len(bp) == 4):
+            return None, "tables have an unexpected form"
+        q, qr = [complex(z) for z in q], [complex(z) for z in qr]
+        bp = [[int(b_) for b_ in r_] for r_ in bp]
+        seqs = {3: [[2, 0, 3], [1, 3, 0]], 4: [[0, 1, 2, 3], [3, 3, 1, 0]], 5: [[1, 0, 3, 2, 2], [0, 2, 1, 1, 3]]}
+        for nsym, rows in seqs.items():
+            for batched in (False, True):
+                labs = rows if batched else rows[:1]
+                for b0 in (False, True):
+                    for training in (True, False):
+                        pts = [[(qr if (bool(b0) != bool(t % 2)) else q)[l_] for t, l_ in enumerate(r_)] for r_ in labs]
+                        bits = [[float(b_) for l_ in r_ for b_ in bp[l_]] for r_ in labs]
+                        want_state = (bool(b0) != bool(nsym % 2)) if training else bool(b0)
+                        modes = [("modulate", None)] if is_mod else [("hard", None), ("soft", 0.5)]
+                        for mode, nv in modes:
+                            attrs = {"self.qpsk": q, "self.qpsk_rotated": qr, "self.bit_patterns": [[float(b_) for b_ in r_] for r_ in bp], "self.modulator.qpsk": q, "self.modulator.qpsk_rotated": qr, "self.modulator.bit_patterns": [[float(b_) for b_ in r_] for r_ in bp], "self._use_rotated": b0, "self.training": training, "self.soft_output": False, "self._bits_per_symbol": 2, "self.bits_per_symbol": 2, "self.gray_coded": gray}
+                            arg = (bits if batched else bits[0]) if is_mod else (pts if batched else pts[0])
+                            names = {"x": arg, "args": PySeq([]), "kwargs": {}} if is_mod else {"y": arg, "noise_var": nv, "args": PySeq([]), "kwargs": {}}
+                            try:
+                                run_fragment(fwd.body, names, attrs, funcs=funcs, materialise=True, max_steps=4000000, attrs_live=True)
+                                return None, "no value returned"
+                            except FragReturn as ret:
+                                out = ret.value
+                            except (Unfoldable, FragRaise, TypeError, ValueError, IndexError, ZeroDivisionError) as exc:
+                                return None, f"forward not evaluable ({exc})"
+                            ctx = f"{cname}, gray_coded={gray}, {nsym} symbols {'in each of 2 rows' if batched else 'in one row'}, state {b0}, {'training' if training else 'evaluation'} mode" + ("" if is_mod else f", {mode} decisions")
+                            flat = []
+
+                            def fl(z):
+                                if isinstance(z, list):
+                                    for e_ in z:
+                                        fl(e_)
+                                else:
+                                    flat.append(z)
+
+                            fl(out)
+                            if is_mod:
+                                want = [z for r_ in pts for z in r_]
+                                if len(flat) != len(want) or any(abs(complex(a_) - b_) > 1e-9 for a_, b_ in zip(flat, want)):
+                                    return VIOLATION, f"{ctx}: the symbols sent are {str([complex(round(complex(a_).real, 3), round(complex(a_).imag, 3)) for a_ in flat])[:160]}; symbol t must be the point of its bit pair in the rotated table iff state XOR (t odd)"
+                            elif mode == "soft":
+                                if len(flat) != 2 * nsym * len(labs):
+                                    return None, f"soft output is not {2 * nsym * len(labs)} numbers"
+                                k_ = 0
+                                for r_ in labs:
+                                    for t, l_ in enumerate(r_):
+                                        for j in range(2):
+                                            llr = flat[k_]
+                                            k_ += 1
+                                            if not isinstance(llr, (int, float)) or llr != llr or llr == 0 or (llr > 0) != (bp[l_][j] == 0):
+                                                return VIOLATION, f"{ctx}: at symbol {t} (label {bp[l_]}, sent from the {'rotated' if (bool(b0) != bool(t % 2)) else 'standard'} table) the LLR of bit {j} is {llr!r}: the demodulator does not use the table the modulator used at that position"
+                            else:
+                                wb = [b_ for r_ in labs for l_ in r_ for b_ in bp[l_]]
+                                wi = [l_ for r_ in labs for l_ in r_]
+                                got = [float(v_) for v_ in flat] if all(isinstance(v_, (int, float)) and not isinstance(v_, bool) for v_ in flat) else None
+                                if got is None or not (got == [float(v_) for v_ in wb] or got == [float(v_) for v_ in wi]):
+                                    return VIOLATION, f"{ctx}: noise-free symbols of the labels {wi} are decided as {str(got)[:120]} (neither their bits {wb} nor their indices): the demodulator does not use the table the modulator used at every position"
+                            final = attrs.get("self._use_rotated")
+                            while isinstance(final, list) and len(final) == 1:
+                                final = final[0]
+                            if isinstance(final, list) or bool(final) != want_state:
+                                return VIOLATION, f"{ctx}: the state left for the next call is {final!r} instead of {want_state} (the table of the next symbol in training mode, unchanged in evaluation mode): the following frame is processed a quarter turn out of step with the other side"
+                            runs += 1
+    return OK, f"{runs} runs (both labelings, 3 / 4 / 5 symbols, one row and two rows, both initial states, training and evaluation mode" + ("" if is_mod else ", hard and soft decisions") + "): symbol t uses the rotated table iff state XOR (t odd); hand-over state XOR (n odd) in training, unchanged in evaluation"
+
+
 def pi4_state_machine(rep: Report, fwd: FuncInfo, cname: str) -> int:
     """Symbol i of a call uses the rotated set iff state XOR (i odd); in training mode the state left behind is
     state XOR (n odd) - the set of the *next* symbol - and in evaluation mode the state is unchanged.  The flag logic of
@@ -1441,6 +1528,11 @@ def rule_memory(repo: Repo, rep: Report) -> int:
     for cname in ("Pi4QPSKModulator", "Pi4QPSKDemodulator"):
         ci = repo.cls(f"{MD}/pi4qpsk.py", cname)
         fwd = repo.method(ci, "forward")
+        pst_, pd_ = pi4_forward_evaluated(repo, cname)
+        if pst_ is not None:
+            rep.add("MEMORY", fwd, f"{cname}: forward evaluated from both states, training / evaluation mode, rows of 3, 4, 5 symbols", pst_, pd_, node=fwd.node)
+            n += 3
+            continue
         n += pi4_state_machine(rep, fwd, cname)
         set_parents(fwd.node)
         inits = [s for s in ast.walk(fwd.node) if isinstance(s, ast.Assign) and isinstance(s.targets[0], ast.Name) and s.targets[0].id == "use_rotated" and match(s.value, "self._use_rotated.clone()") is not None]
@@ -1537,6 +1629,8 @@ def rule_output(repo: Repo, rep: Report) -> int:
                     h_ = ci.find_method(attr_chain(x.func)[5:])
                     if h_ is not None and "bit_patterns" in unparse(h_.node):
                         out.add("bits")
+                    elif h_ is not None and any(isinstance(c_, ast.Call) and (call_name(c_) or unparse(c_.func)).split(".")[-1] in ("argmin", "argmax") for c_ in ast.walk(h_.node)):
+                        out.add("indices")  # the helper returns positions of nearest points, never label bits
                     elif h_ is not None:
                         out.add("helper")
                 if isinstance(x, ast.Name) and x.id in nk:
@@ -1589,7 +1683,8 @@ def rule_output(repo: Repo, rep: Report) -> int:
             if kind == "bits":
                 rep.ok("OUTPUT", fi, f"{cname}: return {unparse(v)[:70]}", "hard decisions are label bits", node=r)
             elif kind == "indices":
-                rep.violation("OUTPUT", fi, f"{cname}: return {unparse(v)[:70]}", "the hard branch returns nearest-point indices, not the bit sequence: for this input layout demodulate(modulate(bits)) is not bits", node=r)
+                # keyed by what is wrong, not by how the return is spelt: a refactoring of the same return is the same finding
+                rep.violation("OUTPUT", fi, f"{cname}: hard decisions returned as nearest-point indices", f"`return {unparse(v)[:70]}`: the hard branch returns nearest-point indices, not the bit sequence: for this input layout demodulate(modulate(bits)) is not bits", node=r)
             else:
                 rep.undecided("OUTPUT", fi, f"{cname}: return {unparse(v)[:70]}", "kind of the returned value not recognised", node=r)
     # identity pair
@@ -1646,7 +1741,7 @@ def rule_value_keyed(repo: Repo, rep: Report) -> int:
                     break
             if witness is not None:
                 x, b = witness
-                rep.violation("VALUE-KEYED", fi, f"{cname}: {unparse(s)[:70]}", f"the valid bit input {x} ({b} bit(s) per symbol) is re-read as symbol indices because of its values / size: it is sent as {len(x) if not isinstance(x[0], list) else len(x[0])} symbols instead of {(len(x) if not isinstance(x[0], list) else len(x[0])) // b}, and the round trip cannot return the bits", node=s)
+                rep.violation("VALUE-KEYED", fi, f"{cname}: a valid bit input is re-read as symbol indices", f"`{unparse(s)[:70]}`: the valid bit input {x} ({b} bit(s) per symbol) is re-read as symbol indices because of its values / size: it is sent as {len(x) if not isinstance(x[0], list) else len(x[0])} symbols instead of {(len(x) if not isinstance(x[0], list) else len(x[0])) // b}, and the round trip cannot return the bits", node=s)
             elif undec is not None:
                 rep.undecided("VALUE-KEYED", fi, f"{cname}: {unparse(s)[:70]}", f"guard not evaluable for input {undec[0]}", node=s)
             else:
